@@ -208,6 +208,13 @@ def direct_merge_shape(prog, an, rep):
                   detail='%s <- %s' % (dst, sorted(srcs)))
         if pv is not None:
             prev = pv if prev in (None, pv) else '?'
+    rep.evaluated()
+    rep.check(prev != '?', R, f.qname + ': both merge strategies use the '
+              'same previous target', f.where(loop), 'the octopus and the '
+              'consecutive strategy merge different "previous" targets (%s): '
+              'one of them does not chain the cascade' %
+              sorted({s_ for _, (d_, a_, b_) in calls for s_ in (a_, b_)
+                      if s_.endswith('.dst_branch')}))
     if prev and prev != '?':
         binds = stores_to(f, prev)
         init = [v for st, v in binds if st.lineno < loop.lineno]
@@ -295,6 +302,10 @@ def queue_merge_shape(prog, an, rep):
                   detail='%s <- %s' % (dst, sorted(srcs)))
         if other:
             qint = other if qint in (None, other) else '?'
+    rep.evaluated()
+    rep.check(qint != '?', R, f.qname + ': both merge strategies use the '
+              'same previous queue-integration branch', f.where(loop),
+              'the two strategies merge different previous branches')
     if not qint or qint == '?':
         return
     # qint = get_queue_integration_branch(...); qint.create(<queue just
